@@ -34,6 +34,9 @@ def sym_int(x=0, *a):
 def sym_sqrt(x):
     if isinstance(x, SR):
         return S.sqrt(x)
+    if isinstance(x, (int, float, _np.integer, _np.floating)) and not isinstance(x, bool) and S.ENGINE is not None and x >= 0:
+        # exact: sqrt(2) stays the algebraic number rt2, not its double (modules doing pure integer work keep math.sqrt)
+        return S.sqrt(S.lift_strict(x))
     return _math.sqrt(x)
 
 
